@@ -15,7 +15,10 @@ RULE = ('random cases over operations mix_from (0-4 inlets, Stream/MultiStream i
         'foreign property packages listing subsets in other orders, all-zero inlets, stale receiver content), split_to (scalar / per-chemical split incl. exact 0 and 1, '
         'fresh/stale/foreign-package outlets, multi-phase feeds), separate_out, copy_flow(remove=True) with IDs/exclude forms, scale/rescale/*, Stream.sum; '
         'flows from {0, exact repeats, 10^U(-3,3)}. non-trivial = >=2 non-empty inlets or a split strictly inside (0,1) or a partial move, with >=2 chemicals flowing; '
-        'distinct = hash of the serialised case')
+        'distinct = hash of the serialised case. Second generation (appended cases): separate_out from a multi-phase mixture (single-/multi-phase other with equal or subset phases, other-case label, own/foreign '
+        'package, the mixture itself, -= form), copy_flow(remove=True) with IDs the source does not list, onto multi-phase destinations of an equal-IDs-but-distinct / foreign package, between different phase sets, '
+        'operator forms a+b, sum([..]), a+=b, (a+b)-=b, -a, a/=k, mix_from(conserve_phases=True / vle=True), phase views of the receiver among the inlets, multi-phase split_to into foreign-package outlets, '
+        'single-phase split_to into multi-phase outlets, Stream.sum over 0-4 streams of any kind and phase, MultiStream.from_streams')
 MIN_NONTRIVIAL = {'quick': 500, 'thorough': 20000}
 ASSUMPTIONS = ['receiver package lists every chemical of the inlets (the quantifier of C01)',
                'energy balance is switched on only for liquid/gas streams at 280-400 K (energy itself is C02)',
@@ -35,7 +38,10 @@ PHASES = 'slgSL'
 
 def required(tier):
     return ['mix', 'split', 'separate', 'move', 'scale', 'sum', 'mix:multi-receiver', 'mix:foreign-package', 'mix:receiver-among-inlets',
-            'split:multi-phase', 'split:foreign-outlet', 'move:multi-phase']
+            'split:multi-phase', 'split:foreign-outlet', 'move:multi-phase',
+            'separate:multi-phase-mixture', 'separate:multi-phase-mixture/multi-other', 'separate:multi-phase-mixture/foreign', 'separate:self', 'separate:isub',
+            'move:ids-not-in-source', 'move:twin', 'move:phase-sets', 'mix:operator-add', 'mix:operator-builtin-sum', 'mix:operator-iadd', 'mix:conserve', 'mix:conserve/energy-balance',
+            'mix:vle', 'mix:rview', 'split:multi-phase/foreign-outlet', 'split:single-to-multi', 'sum:no-streams', 'sum:multi-phase-inlets', 'sum:from_streams', 'scale:neg', 'scale:itruediv']
 
 
 UNDEF = (tmo.exceptions.UndefinedPhase, tmo.exceptions.UndefinedChemicalAlias) if hasattr(tmo, 'exceptions') else ()
@@ -364,8 +370,536 @@ def run_sum(case, rec):
     if sum(1 for b in before if b) >= 2: rec.mark_nontrivial(case_hash(case))
 
 
-RUNNERS = {'mix': run_mix, 'split': run_split, 'sep': run_separate, 'move': run_move, 'scale': run_scale, 'sum': run_sum}
+
+# ---------------------------------------------------------------------------
+# second generation (coverage audit): call forms, options and boundary inputs of the same operation family that the generators above
+# never draw.  They are generated in a second loop (run) so that the case stream above stays what it was.
+
+def swapc(p):
+    return p if p == 'g' else (p.lower() if p.isupper() else p.upper())
+
+
+def mstream(rng, pkg, phs, rep=1.5, zero_p=0.3, allzero=False):
+    n = len(PKGS[pkg])
+    return {'kind': 'M', 'pkg': pkg, 'phases': ''.join(phs), 'T': 298.15, 'P': 101325.,
+            'flows': {ph: ([0.0] * n if (allzero or rng.random() < zero_p) else [gflow(rng, rep) for _ in range(n)]) for ph in phs}}
+
+
+_twins = {}
+
+
+def twin_thermo(ids):
+    """a second Thermo with the same chemical IDs in the same order but a distinct Chemicals object."""
+    th = _twins.get(tuple(ids))
+    if th is None:
+        th = _twins[tuple(ids)] = tmo.Thermo(tmo.Chemicals(list(ids), cache=True))
+    return th
+
+
+def build2(d):
+    if d.get('twin'):
+        th = twin_thermo(PKGS[d['pkg']])
+        ids = th.chemicals.IDs
+        s = tmo.MultiStream(None, phases=tuple(d['phases']), T=d.get('T', 298.15), P=d.get('P', 101325.), thermo=th)
+        for ph, row in d['flows'].items():
+            for i, v in zip(ids, row):
+                if v: s.imol[ph, i] = v
+        return s
+    return build_stream(d, PKGS)
+
+
+def sled(l):
+    return {str(k): v for k, v in l.items()}
+
+
+def collapse(l):
+    out = {}
+    for (ph, c), v in l.items(): out[c] = out.get(c, 0.0) + v
+    return out
+
+
+def unchanged(rec, clause, tag, pairs):
+    """after a refusal nothing may have moved: pairs = [(stream, phase ledger before)]"""
+    for s, b in pairs:
+        bb, _ = ledger_diff(sled(phase_ledger(s)), sled(b), rel=0)
+        rec.check(not bb, clause, f'refused-but-changed/{tag}', f'the call was refused with an error but a stream was changed: {bb[:3]}')
+
+
+NUMERIC = ('RuntimeError', 'FloatingPointError', 'ZeroDivisionError', 'OverflowError', 'InfeasibleRegion', 'DomainError', 'NoEquilibrium')
+
+
+def passes_through(e, parts):
+    tb = e.__traceback__
+    while tb is not None:
+        fn = tb.tb_frame.f_code.co_filename.replace('\\', '/')
+        if any(p in fn for p in parts): return True
+        tb = tb.tb_next
+    return False
+
+
+def not_material(e, rec, vle=False):
+    """a numerical failure of the temperature solver of the energy balance (C02) or of the equilibrium solver (C03/C04), not of the material
+    bookkeeping: counted, not judged here.  Programming errors (TypeError, AttributeError, IndexError, KeyError, ValueError ...) are still reported."""
+    if type(e).__name__ not in NUMERIC: return False
+    if vle and passes_through(e, ['/thermosteam/equilibrium/']):
+        rec.refuse('vle=True: the equilibrium solver did not return normally (C03/C04), not judged'); return True
+    if passes_through(e, ['/thermosteam/mixture/']):
+        rec.refuse('energy balance on: the temperature solver did not return normally (C02), not judged'); return True
+    return False
+
+
+def gen_sep2(rng):
+    """a multi-phase mixture; the stream separated out is single-phase (in a phase of the mixture, possibly under the other-case label),
+    multi-phase with the same or a subset of the phases, own or foreign package, or the mixture itself; method and -= forms."""
+    pkg = rng.choice(FULL)
+    k = rng.randrange(2, 4)
+    form = rng.choice(['S', 'S', 'M-equal', 'M-equal', 'M-subset', 'self', 'swap'])
+    how = 'isub' if rng.random() < 0.2 else 'method'
+    phs = rng.sample(list('lg' if how == 'isub' else PHASES), 2 if how == 'isub' else k)
+    a = mstream(rng, pkg, phs, zero_p=0.2, allzero=rng.random() < 0.05)
+    bpkg = pkg if rng.random() < 0.5 else rng.randrange(len(PKGS))
+    nb = len(PKGS[bpkg])
+    if form == 'swap':
+        cands = [p for p in phs if p != 'g' and swapc(p) not in phs]
+        if cands and how != 'isub': b = {'kind': 'S', 'pkg': bpkg, 'phase': swapc(rng.choice(cands)), 'flows': [gflow(rng, 1.5) for _ in range(nb)]}
+        else: form = 'S'
+    if form == 'S': b = {'kind': 'S', 'pkg': bpkg, 'phase': rng.choice(phs), 'flows': [0.0] * nb if rng.random() < 0.08 else [gflow(rng, 1.5) for _ in range(nb)]}
+    elif form == 'M-equal': b = mstream(rng, bpkg, rng.sample(phs, len(phs)))
+    elif form == 'M-subset': b = mstream(rng, bpkg, rng.sample(phs, rng.randrange(1, len(phs))) if len(phs) > 1 else phs)
+    elif form == 'self': b = 'self'
+    if how == 'isub':
+        T = round(rng.uniform(290, 380), 2)
+        a['T'] = T
+        if b != 'self': b['T'] = T
+    return {'t': 'sep2', 'a': a, 'b': b, 'how': how, 'form': form}
+
+
+def run_sep2(case, rec):
+    m = build_stream(case['a'], PKGS)
+    la = phase_ledger(m)
+    how = case['how']
+    if case['b'] == 'self':
+        try:
+            if how == 'isub': m -= m
+            else: m.separate_out(m, energy_balance=False)
+        except Exception as e:
+            rec.exception('separate', e, what=f'multi-phase m.separate_out(m) ({how}) raised {type(e).__name__}: {str(e)[:150]}'); return
+        got = phase_ledger(m)
+        rec.check(not got, 'separate', f'self/multi-phase/{how}', f'separating a multi-phase stream out of itself leaves material: {sled(got)}')
+        check_inv(rec, [m], 'separate')
+        rec.hit('separate:self')
+        return
+    b = build_stream(case['b'], PKGS)
+    lb = phase_ledger(b)
+    labels = set(m.phases)
+    ids = m.chemicals.IDs; idx = {c: i for i, c in enumerate(m.chemicals.CASs)}
+    total = dict(la)
+    for (ph, c), v in lb.items():
+        lab = ph if ph in labels else swapc(ph)
+        total[(lab, c)] = total.get((lab, c), 0.0) + v
+    for (ph, c), v in total.items():
+        m.imol[ph, ids[idx[c]]] = v
+    foreign = b.chemicals is not m.chemicals
+    bm = isinstance(b, tmo.MultiStream)
+    tag = 'multi-phase-mixture/' + (('equal-phases' if set(b.phases) == labels else 'subset-phases') + '-multi-other' if bm else ('other-case-label-' if b.phase not in labels else '') + 'single-other') + \
+          ('/foreign' if foreign else '/same') + '-package' + ('/isub' if how == 'isub' else '')
+    try:
+        if how == 'isub':
+            if not la: rec.refuse('-= that leaves nothing: energy balance on an empty remainder not judged'); return
+            m -= b
+        else:
+            m.separate_out(b, energy_balance=False)
+    except Exception as e:
+        if how == 'isub' and not_material(e, rec): return
+        rec.exception('separate', e, what=f'separate_out({tag}) raised {type(e).__name__}: {str(e)[:150]}'); return
+    got = phase_ledger(m)
+    scale = max([abs(v) for v in total.values()] + [0.0])
+    bad, _ = ledger_diff(sled(got), sled(la), rel=0.0, abs_=1e-9 * scale)
+    rec.check(not bad, 'separate', f'remainder/{tag}', f'(a+b).separate_out(b) != a per phase: {bad[:4]}',
+              residual=(max([abs(got.get(k, 0) - la.get(k, 0)) for k in set(got) | set(la)] + [0]) / scale if scale else 0),
+              detail={'a': sled(la), 'b': sled(lb), 'got': sled(got)})
+    bb, _ = ledger_diff(sled(phase_ledger(b)), sled(lb), rel=0)
+    rec.check(not bb, 'separate', f'other-changed/{tag}', 'separate_out changed the stream that was separated out')
+    check_inv(rec, [m, b], 'separate')
+    rec.hit('separate:multi-phase-mixture')
+    if bm: rec.hit('separate:multi-phase-mixture/multi-other')
+    if foreign: rec.hit('separate:multi-phase-mixture/foreign')
+    if how == 'isub': rec.hit('separate:isub')
+    if la and lb and nflowing(collapse(total)) >= 2: rec.mark_nontrivial(case_hash(case))
+
+
+def gen_move2(rng):
+    """copy_flow(remove=True): IDs that the source does not list (destination on a strict superset package), multi-phase destinations on an
+    equal-IDs-but-distinct package / a foreign superset package, multi-phase pairs with different phase sets, phase given as a sequence."""
+    form = rng.choice(['ids-outside', 'ids-outside', 'ids-outside', 'twin', 'twin', 'foreign-multi', 'phase-sets', 'phase-sets', 'phase-seq'])
+    if form == 'ids-outside':
+        pkg = rng.choice([1, 2, 3, 4])
+        cands = [k for k in range(len(PKGS)) if set(PKGS[pkg]) < set(PKGS[k])]
+        dpkg = rng.choice(cands)
+        src = gen_stream(rng, pkg=pkg, kind=rng.choice('SSM'), empty_p=0.05)
+        dst = gen_stream(rng, pkg=dpkg, kind='S')
+        pool = list(PKGS[dpkg])
+        IDs = rng.choice(pool) if rng.random() < 0.4 else rng.sample(pool, rng.randrange(1, len(pool) + 1))
+        return {'t': 'move2', 'form': form, 'src': src, 'dst': dst, 'IDs': IDs, 'exclude': rng.random() < 0.6, 'phase': None}
+    pkg = rng.randrange(len(PKGS)); ids = PKGS[pkg]
+    phs = rng.sample(list(PHASES), rng.randrange(2, 4))
+    r = rng.random()
+    IDs = None if r < 0.4 else (rng.choice(ids) if r < 0.6 else rng.sample(list(ids), rng.randrange(1, len(ids) + 1)))
+    exclude = IDs is not None and rng.random() < 0.3
+    src = mstream(rng, pkg, phs, zero_p=0.1)
+    if form != 'phase-sets' and rng.random() < 0.3: src = {'kind': 'S', 'pkg': pkg, 'phase': rng.choice(phs), 'flows': [gflow(rng, 1.5) for _ in ids]}
+    phase = rng.choice([None, None, rng.choice(phs)])
+    if form == 'twin':
+        dst = mstream(rng, pkg, phs, allzero=rng.random() < 0.5); dst['twin'] = True
+    elif form == 'foreign-multi':
+        cands = [k for k in range(len(PKGS)) if set(ids) <= set(PKGS[k]) and PKGS[k] != ids]
+        if not cands: cands = [0]
+        dst = mstream(rng, rng.choice(cands), phs, allzero=rng.random() < 0.5)
+    elif form == 'phase-sets':
+        dphs = rng.sample(list(PHASES), rng.randrange(2, 5))
+        dst = mstream(rng, pkg, dphs, allzero=rng.random() < 0.5); phase = None
+    else:
+        dst = mstream(rng, pkg, phs, allzero=rng.random() < 0.5)
+        phase = rng.sample(phs, rng.randrange(1, len(phs) + 1))
+    return {'t': 'move2', 'form': form, 'src': src, 'dst': dst, 'IDs': IDs, 'exclude': exclude, 'phase': phase}
+
+
+def run_move2(case, rec):
+    src = build2(case['src']); dst = build2(case['dst'])
+    IDs = case['IDs']; exclude = case['exclude']; phase = case['phase']; form = case['form']
+    multi_dst = isinstance(dst, tmo.MultiStream); multi_src = isinstance(src, tmo.MultiStream)
+    sb, db = phase_ledger(src), phase_ledger(dst)
+    kw = {'remove': True}
+    if exclude: kw['exclude'] = True
+    ids_arg = ... if IDs is None else (IDs if isinstance(IDs, str) else tuple(IDs))
+    tag = form + '/' + ('multi' if multi_dst else 'single') + '-dest/' + ('multi' if multi_src else 'single') + '-source/' + \
+          ('all' if IDs is None else ('exclude' if exclude else 'IDs')) + ('/str' if isinstance(IDs, str) else '') + ('/phase' if phase else '')
+    src_ids = set(src.chemicals.IDs)
+    outside = IDs is not None and any(i not in src_ids for i in ([IDs] if isinstance(IDs, str) else IDs))
+    rec.hit('move:' + form)
+    try:
+        if multi_dst:
+            dst.copy_flow(src, ... if phase is None else (phase if isinstance(phase, str) else tuple(phase)), ids_arg, **kw)
+        else:
+            dst.copy_flow(src, ids_arg, **kw)
+    except tmo.exceptions.UndefinedChemicalAlias as e:
+        if outside and not exclude:
+            rec.refuse('copy_flow of chemicals the source does not list: UndefinedChemicalAlias'); unchanged(rec, 'move', tag, [(src, sb), (dst, db)]); return
+        rec.exception('move', e, what=f'copy_flow({tag}) raised {type(e).__name__}: {str(e)[:150]}'); return
+    except tmo.exceptions.UndefinedPhase as e:
+        if form == 'phase-seq' or (form == 'phase-sets' and not set(src.phases) <= set(dst.phases)):
+            rec.refuse('copy_flow with a phase sequence / a source phase the destination lacks: UndefinedPhase'); unchanged(rec, 'move', tag, [(src, sb), (dst, db)]); return
+        rec.exception('move', e, what=f'copy_flow({tag}) raised {type(e).__name__}: {str(e)[:150]}'); return
+    except ValueError as e:
+        if form == 'foreign-multi' and 'same chemicals' in str(e):
+            rec.refuse('multi-phase copy_flow between different property packages: documented ValueError'); unchanged(rec, 'move', tag, [(src, sb), (dst, db)]); return
+        if form == 'phase-sets' and tuple(src.phases) != tuple(dst.phases):
+            rec.refuse('multi-phase copy_flow between different phase sets: ValueError'); unchanged(rec, 'move', tag, [(src, sb), (dst, db)]); return
+        rec.exception('move', e, what=f'copy_flow({tag}) raised {type(e).__name__}: {str(e)[:150]}'); return
+    except Exception as e:
+        rec.exception('move', e, what=f'copy_flow({tag}) raised {type(e).__name__}: {str(e)[:150]}'); return
+    sa, da = phase_ledger(src), phase_ledger(dst)
+    cas_of = {i: c for i, c in zip(src.chemicals.IDs, src.chemicals.CASs)}
+    all_cas = set(src.chemicals.CASs)
+    named = all_cas if IDs is None else {cas_of[i] for i in ([IDs] if isinstance(IDs, str) else IDs) if i in cas_of}
+    def tot(l, c, ph=None):
+        return sum(v for (p, cc), v in l.items() if cc == c and (ph is None or p == ph))
+    problems = []
+    src_phases = set(src.phases) if multi_src else {src.phase}
+    per_phase = multi_dst and form in ('twin', 'phase-seq')
+    sel_phases = None if phase is None else ({phase} if isinstance(phase, str) else set(phase))
+    if per_phase:
+        for c in all_cas:
+            for ph in set(dst.phases) | src_phases:
+                selected = (sel_phases is None or ph in sel_phases) and c in named
+                moved = (not selected) if exclude else selected
+                s0, s1_, d0, d1 = tot(sb, c, ph), tot(sa, c, ph), tot(db, c, ph), tot(da, c, ph)
+                if moved and ph in src_phases:
+                    if not (d1 == s0 and s1_ == 0): problems.append(('moved-entry', ph, c, s0, s1_, d0, d1))
+                elif s1_ != s0: problems.append(('source-untouched-entry-changed', ph, c, s0, s1_, d0, d1))
+    else:
+        # totals per chemical: what was selected left the source completely and arrived; the rest of the source is untouched
+        moved_cas = (all_cas - named) if exclude else named
+        for c in all_cas:
+            s0, s1_, d0, d1 = tot(sb, c), tot(sa, c), tot(db, c), tot(da, c)
+            if c in moved_cas:
+                if form == 'phase-sets':
+                    # destination phases the source lacks may keep what they held: judged is only that what left the source arrived and nothing more than that
+                    if not (s1_ == 0 and s0 * (1 - 1e-12) <= d1 <= (s0 + d0) * (1 + 1e-12)): problems.append(('moved-entry', c, s0, s1_, d0, d1))
+                elif not (abs(d1 - s0) <= 1e-12 * abs(s0) and s1_ == 0): problems.append(('moved-entry', c, s0, s1_, d0, d1))
+            elif s1_ != s0: problems.append(('source-untouched-entry-changed', c, s0, s1_, d0, d1))
+    rec.check(not problems, 'move', tag, f'copy_flow(remove=True): material duplicated or lost: {problems[:4]}',
+              detail={'src_before': sled(sb), 'dst_before': sled(db), 'src_after': sled(sa), 'dst_after': sled(da)})
+    check_inv(rec, [src, dst], 'move')
+    if outside: rec.hit('move:ids-not-in-source')
+    if any(tot(sb, c) for c in all_cas) and nflowing({c: tot(sb, c) for c in all_cas}) >= 2: rec.mark_nontrivial(case_hash(case))
+
+
+def gen_op(rng):
+    """operator forms: a + b, sum([a, b, c]) (0 + a), a += b, (a+b) -= b.  They run with the energy balance on, so liquid/gas at 290-380 K."""
+    pkg = rng.choice(FULL)
+    a = gen_stream(rng, pkg=pkg, rep=2.5, phases_from='lg', thermal=True, empty_p=0.05)
+    b = gen_stream(rng, pkg=pkg if rng.random() < 0.5 else None, rep=2.5, phases_from='lg', thermal=True, empty_p=0.08)
+    c = gen_stream(rng, pkg=pkg if rng.random() < 0.5 else None, rep=2.5, phases_from='lg', thermal=True, empty_p=0.08)
+    return {'t': 'op', 'a': a, 'b': b, 'c': c, 'how': rng.choice(['add', 'add', 'builtin-sum', 'iadd', 'iadd', 'isub'])}
+
+
+def run_op(case, rec):
+    a = build_stream(case['a'], PKGS); b = build_stream(case['b'], PKGS); c = build_stream(case['c'], PKGS)
+    how = case['how']
+    tmo.settings.set_thermo(a.thermo)       # a + b builds its result on the default package
+    la, lb, lc = ledger(a), ledger(b), ledger(c)
+    kinds = ''.join('M' if isinstance(x, tmo.MultiStream) else 'S' for x in ((a, b, c) if how == 'builtin-sum' else (a, b)))
+    foreign = b.chemicals is not a.chemicals or (how == 'builtin-sum' and c.chemicals is not a.chemicals)
+    tag = f'{how}/{kinds}/' + ('foreign' if foreign else 'same') + '-package'
+    if how == 'isub':
+        # the mixture a+b is built with the operator, then b is taken out again with the operator
+        try:
+            m = a + b
+        except Exception as e:
+            if not_material(e, rec): return
+            rec.exception('mix', e, what=f'a + b ({tag}) raised {type(e).__name__}: {str(e)[:150]}'); return
+        if not la or not lb: rec.refuse('-= with an empty remainder or nothing to separate: not judged'); return
+        try:
+            m -= b
+        except Exception as e:
+            if not_material(e, rec): return
+            rec.exception('separate', e, what=f'(a + b) -= b ({tag}) raised {type(e).__name__}: {str(e)[:150]}'); return
+        got = ledger(m)
+        scale = max([abs(v) for v in ledger_add(la, lb).values()] + [0.0])
+        bad, _ = ledger_diff(got, la, rel=0.0, abs_=1e-9 * scale)
+        rec.check(not bad, 'separate', f'remainder/operator/{tag}', f'(a + b) -= b leaves other totals than a: {bad[:4]}', detail={'a': la, 'b': lb, 'got': got})
+        bb, _ = ledger_diff(ledger(b), lb, rel=0)
+        rec.check(not bb, 'separate', f'other-changed/operator/{tag}', '-= changed the stream that was separated out')
+        check_inv(rec, [m, a, b], 'separate')
+        rec.hit('separate:isub')
+        if nflowing(ledger_add(la, lb)) >= 2: rec.mark_nontrivial(case_hash(case))
+        return
+    try:
+        if how == 'add': r = a + b; expected = ledger_add(la, lb); ins = [(a, la), (b, lb)]
+        elif how == 'builtin-sum': r = sum([a, b, c]); expected = ledger_add(la, lb, lc); ins = [(a, la), (b, lb), (c, lc)]
+        else:
+            r = a; r += b; expected = ledger_add(la, lb); ins = [(b, lb)]
+            rec.check(r is a, 'mix', f'iadd-identity/{tag}', 'a += b rebinds a to another object')
+    except Exception as e:
+        if not_material(e, rec): return
+        rec.exception('mix', e, what=f'operator form {tag} raised {type(e).__name__}: {str(e)[:150]}'); return
+    got = ledger(r)
+    bad, worst = ledger_diff(got, expected, rel=1e-12)
+    rec.check(not bad, 'mix', f'sum/operator/{tag}', f'operator form {how}: per-chemical totals differ from the sum of the operands: {bad[:4]}', residual=worst, detail={'expected': expected, 'got': got})
+    for o, l in ins:
+        bb, _ = ledger_diff(ledger(o), l, rel=0)
+        rec.check(not bb, 'mix', f'inlet-changed/operator/{tag}', f'operator form {how} changed an operand: {bb[:3]}')
+    check_inv(rec, [r, a, b, c], 'mix')
+    rec.hit('mix:operator-' + how)
+    if sum(1 for o, l in ins if l) + (1 if how == 'iadd' and la else 0) >= 2 and nflowing(expected) >= 2: rec.mark_nontrivial(case_hash(case))
+
+
+def gen_mix2(rng):
+    """mix_from options: conserve_phases=True (energy balance on/off), vle=True, and phase views of a multi-phase receiver among the inlets."""
+    form = rng.choices(['conserve', 'vle', 'rview'], [5, 1, 4])[0]
+    eb = form != 'rview' and rng.random() < (0.5 if form == 'vle' else 0.3)
+    phases_from = 'lg' if (eb or form == 'vle') else PHASES
+    thermal = eb or form == 'vle'
+    recv = gen_stream(rng, pkg=rng.choice(FULL), rep=2.5, phases_from=phases_from, thermal=thermal, kind='M' if form == 'rview' else None)
+    n = rng.choice([1, 2, 2, 2, 3, 3, 4])
+    inlets = []
+    for _ in range(n):
+        r = rng.random()
+        if form == 'rview' and r < 0.45: inlets.append({'rview': rng.randrange(len(recv['phases']))})
+        elif r < 0.12: inlets.append('R')
+        else:
+            pkg = recv['pkg'] if rng.random() < 0.5 else None
+            if form == 'vle': pkg = rng.choice([0, 1, 5])
+            inlets.append(gen_stream(rng, pkg=pkg, rep=2.5, phases_from=phases_from, thermal=thermal))
+    if form == 'rview' and not any(isinstance(i, dict) and 'rview' in i for i in inlets): inlets.append({'rview': 0})
+    return {'t': 'mix2', 'form': form, 'recv': recv, 'inlets': inlets, 'eb': eb}
+
+
+def run_mix2(case, rec):
+    recv = build_stream(case['recv'], PKGS)
+    form = case['form']; eb = case['eb']
+    objs = []
+    for d in case['inlets']:
+        if d == 'R': objs.append(recv)
+        elif 'rview' in d: objs.append(recv[recv.phases[d['rview'] % len(recv.phases)]])
+        else: objs.append(build_stream(d, PKGS))
+    before = [ledger(o) for o in objs]
+    expected = ledger_add(*before) if objs else {}
+    foreign = any(o.chemicals is not recv.chemicals for o in objs)
+    multi_recv = isinstance(recv, tmo.MultiStream)
+    views = [o for o, d in zip(objs, case['inlets']) if isinstance(d, dict) and 'rview' in d]
+    tag = form + '/' + ('multi' if multi_recv else 'single') + '-receiver/' + ('foreign' if foreign else 'same') + '-package' + ('/energy-balance' if eb else '')
+    kw = {'energy_balance': eb}
+    if form == 'conserve': kw['conserve_phases'] = True
+    if form == 'vle': kw['vle'] = True
+    try:
+        recv.mix_from(objs, **kw)
+    except Exception as e:
+        if (form == 'vle' or eb) and not_material(e, rec, vle=form == 'vle'): return
+        rec.exception('mix', e, what=f'mix_from({len(objs)} inlets, {tag}) raised {type(e).__name__}: {str(e)[:150]}')
+        return
+    got = ledger(recv)
+    n_nonempty = sum(1 for b in before if b)
+    rel = 1e-9 if form == 'vle' else 1e-12
+    bad, worst = ledger_diff(got, expected, rel=rel)
+    mech = tag + ('/receiver-among-inlets' if any(o is recv for o in objs) else '') + ('/single-nonempty-inlet' if n_nonempty == 1 else '')
+    rec.check(not bad, 'mix', f'sum/{mech}', f'mix_from({form}): per-chemical totals differ from the sum of the inlets: {bad[:4]}', residual=worst, detail={'expected': expected, 'got': got})
+    for o, b in zip(objs, before):
+        if o is recv or any(o is v for v in views): continue
+        bb, _ = ledger_diff(ledger(o), b, rel=0)
+        rec.check(not bb, 'mix', f'inlet-changed/{tag}', f'mix_from changed an inlet: {bb[:3]}')
+    check_inv(rec, [recv] + [o for o in objs if not any(o is v for v in views)], 'mix')
+    rec.hit('mix:' + form)
+    if form == 'conserve' and eb: rec.hit('mix:conserve/energy-balance')
+    if n_nonempty >= 2 and nflowing(expected) >= 2: rec.mark_nontrivial(case_hash(case))
+
+
+def gen_split2(rng):
+    """multi-phase feed with outlets on a foreign superset package; single-phase feed with multi-phase outlets."""
+    form = rng.choice(['multi-foreign', 'multi-foreign', 'single-to-multi'])
+    eb = rng.random() < 0.5
+    pkg = rng.choice([1, 2, 3, 4]) if form == 'multi-foreign' else rng.randrange(len(PKGS))
+    n = len(PKGS[pkg])
+    split = rng.choice([0.0, 1.0, 0.5, round(rng.random(), 3)]) if rng.random() < 0.3 else [rng.choice([0.0, 1.0, 0.25, round(rng.random(), 6)]) for _ in range(n)]
+    if form == 'multi-foreign':
+        phs = rng.sample(list(PHASES), rng.randrange(2, 4))
+        feed = mstream(rng, pkg, phs, allzero=rng.random() < 0.05)
+        cands = [k for k in range(len(PKGS)) if set(PKGS[pkg]) < set(PKGS[k])]
+        outs = []
+        for _ in range(2):
+            r = rng.random(); opkg = rng.choice(cands) if r < 0.75 else pkg
+            if rng.random() < 0.3: outs.append({'kind': 'S', 'pkg': opkg, 'phase': 'l', 'flows': [0.0] * len(PKGS[opkg])})
+            else: outs.append(mstream(rng, opkg, phs, allzero=rng.random() < 0.5))
+        if outs[0]['pkg'] == pkg and outs[1]['pkg'] == pkg: outs[0] = mstream(rng, cands[0], phs, allzero=True)
+    else:
+        feed = gen_stream(rng, pkg=pkg, kind='S', empty_p=0.05)
+        ophs = [feed['phase']] + rng.sample([p for p in PHASES if p != feed['phase']], rng.randrange(1, 3))
+        outs = [mstream(rng, pkg, ophs, allzero=rng.random() < 0.6), mstream(rng, pkg, ophs, allzero=rng.random() < 0.6) if rng.random() < 0.7 else gen_stream(rng, pkg=pkg, kind='S')]
+        if rng.random() < 0.5: outs.reverse()
+    return {'t': 'split2', 'form': form, 'feed': feed, 's1': outs[0], 's2': outs[1], 'split': split, 'eb': eb}
+
+
+def run_split2(case, rec):
+    feed = build_stream(case['feed'], PKGS); s1 = build_stream(case['s1'], PKGS); s2 = build_stream(case['s2'], PKGS)
+    split = case['split']; form = case['form']
+    cas = feed.chemicals.CASs
+    sp_arr = np.array(split, dtype=float) if isinstance(split, list) else split
+    fb = phase_ledger(feed); b1 = phase_ledger(s1); b2 = phase_ledger(s2)
+    multi = isinstance(feed, tmo.MultiStream)
+    foreign = s1.chemicals is not feed.chemicals or s2.chemicals is not feed.chemicals
+    tag = form + ('/foreign-outlet' if foreign else '') + ('/energy-balance' if case['eb'] else '')
+    try:
+        feed.split_to(s1, s2, sp_arr, energy_balance=case['eb'])
+    except ValueError as e:
+        if form == 'single-to-multi' and not case['eb'] and 'read-only' in str(e):
+            # the total flow of a multi-phase stream cannot be assigned: a single-phase split without energy balance refuses multi-phase outlets
+            rec.refuse('single-phase split_to(energy_balance=False) into a multi-phase outlet: read-only total flow')
+            unchanged(rec, 'split', tag, [(feed, fb)]); return
+        rec.exception('split', e, what=f'split_to({tag}) raised {type(e).__name__}: {str(e)[:150]}'); return
+    except Exception as e:
+        rec.exception('split', e, what=f'split_to({tag}) raised {type(e).__name__}: {str(e)[:150]}'); return
+    def sp_of(c):
+        return split[cas.index(c)] if isinstance(split, list) else split
+    e1 = {}; e2 = {}
+    for (ph, c), v in fb.items():
+        a = v * sp_of(c)
+        e1[(ph, c)] = a; e2[(ph, c)] = v - a
+    for name, s, e in (('s1', s1, e1), ('s2', s2, e2)):
+        if isinstance(s, tmo.MultiStream) and multi:
+            got = sled(phase_ledger(s)); exp = sled(e)
+        else:
+            got = ledger(s); exp = collapse(e)
+        bad, worst = ledger_diff(got, exp, rel=1e-12, abs_=0.0)
+        rec.check(not bad, 'split', f'{name}/{tag}', f'split_to: {name} differs from {"split*feed" if name == "s1" else "feed-split*feed"}: {bad[:4]}', residual=worst,
+                  detail={'expected': exp, 'got': got})
+    bb, _ = ledger_diff(sled(phase_ledger(feed)), sled(fb), rel=0)
+    rec.check(not bb, 'split', f'feed-changed/{tag}', f'split_to changed the feed: {bb[:3]}')
+    check_inv(rec, [feed, s1, s2], 'split')
+    rec.hit('split:' + form)
+    if multi and foreign: rec.hit('split:multi-phase/foreign-outlet')
+    inside = (isinstance(split, list) and any(0 < x < 1 for x in split)) or (not isinstance(split, list) and 0 < split < 1)
+    if inside and nflowing(collapse(fb)) >= 2: rec.mark_nontrivial(case_hash(case))
+
+
+def gen_sum2(rng):
+    """Stream.sum over 0-4 streams of any kind and phase; MultiStream.from_streams over single-phase streams of different phases."""
+    pkg = rng.choice(FULL)
+    if rng.random() < 0.3:
+        phs = rng.sample(list(PHASES), rng.randrange(1, 5))
+        return {'t': 'sum2', 'form': 'from_streams', 'pkg': pkg,
+                'streams': [{'kind': 'S', 'pkg': pkg, 'phase': p, 'flows': [0.0] * len(PKGS[pkg]) if rng.random() < 0.15 else [gflow(rng, 1.5) for _ in PKGS[pkg]]} for p in phs]}
+    n = rng.choice([0, 1, 2, 2, 3, 4])
+    return {'t': 'sum2', 'form': 'sum', 'pkg': pkg, 'streams': [gen_stream(rng, pkg=pkg if rng.random() < 0.5 else None) for _ in range(n)]}
+
+
+def run_sum2(case, rec):
+    streams = [build_stream(d, PKGS) for d in case['streams']]
+    before = [ledger(s) for s in streams]
+    if case['form'] == 'from_streams':
+        pb = {}
+        for s in streams: pb.update(phase_ledger(s))
+        try:
+            new = tmo.MultiStream.from_streams(streams)
+        except Exception as e:
+            rec.exception('sum', e, what=f'MultiStream.from_streams raised {type(e).__name__}: {str(e)[:150]}'); return
+        got = phase_ledger(new)
+        bad, worst = ledger_diff(sled(got), sled(pb), rel=0)
+        rec.check(not bad, 'sum', 'from_streams/per-phase', f'MultiStream.from_streams: content per phase differs from the streams given: {bad[:4]}', residual=worst)
+        rec.check(set(new.phases) == {s.phase for s in streams}, 'sum', 'from_streams/phases', f'MultiStream.from_streams: phases {new.phases} from streams in {[s.phase for s in streams]}')
+        check_inv(rec, [new] + streams, 'sum')
+        rec.hit('sum:from_streams')
+        if sum(1 for b in before if b) >= 2: rec.mark_nontrivial(case_hash(case))
+        return
+    try:
+        new = tmo.Stream.sum(streams, None, thermo_of(PKGS[case['pkg']]), energy_balance=False)
+    except Exception as e:
+        rec.exception('sum', e, what=f'Stream.sum over {len(streams)} streams raised {type(e).__name__}: {str(e)[:150]}'); return
+    bad, worst = ledger_diff(ledger(new), ledger_add(*before) if before else {}, rel=1e-12)
+    foreign = any(s.chemicals is not new.chemicals for s in streams)
+    multi = any(isinstance(s, tmo.MultiStream) for s in streams)
+    rec.check(not bad, 'sum', ('no-streams' if not streams else ('multi-phase-inlets/' if multi else 'mixed-phases/') + ('foreign-package' if foreign else 'same-package')),
+              f'Stream.sum differs from the sum of the streams: {bad[:4]}', residual=worst)
+    for s, b in zip(streams, before):
+        bb, _ = ledger_diff(ledger(s), b, rel=0)
+        rec.check(not bb, 'sum', 'inlet-changed', f'Stream.sum changed one of the streams: {bb[:3]}')
+    check_inv(rec, [new] + streams, 'sum')
+    if not streams: rec.hit('sum:no-streams')
+    if multi: rec.hit('sum:multi-phase-inlets')
+    if sum(1 for b in before if b) >= 2: rec.mark_nontrivial(case_hash(case))
+
+
+def gen_scale2(rng):
+    return {'t': 'scale2', 's': gen_stream(rng, empty_p=0.05), 'k': rng.choice([1.0, 2.0, 0.5, round(10 ** rng.uniform(-3, 3), 6)]), 'how': rng.choice(['neg', 'itruediv', 'itruediv'])}
+
+
+def run_scale2(case, rec):
+    s = build_stream(case['s'], PKGS); k = case['k']; how = case['how']
+    b = phase_ledger(s)
+    try:
+        if how == 'neg': r = -s
+        else: r = s; r /= k
+    except Exception as e:
+        rec.exception('scale', e, what=f'{how}({k}) raised {type(e).__name__}: {str(e)[:150]}'); return
+    exp = {kk: (-v if how == 'neg' else v / k) for kk, v in b.items()}
+    exp = {kk: v for kk, v in exp.items() if v}
+    got = phase_ledger(r)
+    bad, worst = ledger_diff(sled(got), sled(exp), rel=1e-15)
+    rec.check(not bad, 'scale', f'{how}/{"multi" if isinstance(s, tmo.MultiStream) else "single"}', f'{how} ({k}): flows are not k times the original: {bad[:4]}', residual=worst)
+    if how == 'neg':
+        bb, _ = ledger_diff(sled(phase_ledger(s)), sled(b), rel=0)
+        rec.check(not bb and r is not s, 'scale', 'neg/operand-changed', '-s changed its operand')
+    else:
+        rec.check(r is s, 'scale', 'itruediv/identity', 's /= k rebinds s to another object')
+    check_inv(rec, [s, r], 'scale')
+    rec.hit('scale:' + how)
+    if len(b) >= 2: rec.mark_nontrivial(case_hash(case))
+
+
+RUNNERS = {'mix': run_mix, 'split': run_split, 'sep': run_separate, 'move': run_move, 'scale': run_scale, 'sum': run_sum,
+           'sep2': run_sep2, 'move2': run_move2, 'op': run_op, 'mix2': run_mix2, 'split2': run_split2, 'sum2': run_sum2, 'scale2': run_scale2}
 GENS = [(gen_mix, 0.4), (gen_split, 0.2), (gen_separate, 0.1), (gen_move, 0.17), (gen_scale, 0.07), (gen_sum, 0.06)]
+GENS2 = [(gen_sep2, 0.2), (gen_move2, 0.2), (gen_op, 0.12), (gen_mix2, 0.22), (gen_split2, 0.12), (gen_sum2, 0.09), (gen_scale2, 0.05)]
 
 
 def run_case(case, rec):
@@ -387,3 +921,10 @@ def run(rec, rng, tier, shard, nshards):
         case = rng.choices(names, weights)[0](rng)
         run_case(case, rec)
         if i % 401 == 0: rec.sample(case)
+    # second generation: appended so that the cases above are the same as before
+    n2 = 2500 if tier == 'quick' else 25000
+    names, weights = zip(*GENS2)
+    for i in range(n2):
+        case = rng.choices(names, weights)[0](rng)
+        run_case(case, rec)
+        if i % 1201 == 0: rec.sample(case)
